@@ -687,4 +687,90 @@ theorem leaf_python_slices (n : Nat) (out : Nat → Option K) :
       | _, _, _ => none) :=
   ⟨rfl, rfl, rfl, rfl, rfl⟩
 
+/-! ### list input (round 4) -/
+
+/-- The list branch of `calc_rdm_unbalanced` in the text under check is a stateless loop: every
+    collected element is `calc_rdm_unbalanced(dat, …)` with the caller's arguments passed through
+    (`noise` or `noise[i_dat]`), and no name is carried from one iteration to the next (leaves
+    derived from the AST of the loop; a cache of the previous dataset's coding, an argument
+    overwritten per dataset, or a dropped keyword breaks this obligation). -/
+theorem list_loop_stateless : listCarried = 0 ∧ listPassthrough = 1 := ⟨rfl, rfl⟩
+
+/-- Row `k` of the result for a list is the `k`-th dataset computed alone, and there is exactly
+    one row per dataset. -/
+theorem list_rowwise (cs : List (Cfg K)) :
+    (unbList cs).length = cs.length ∧
+    ∀ k : Nat, (unbList cs)[k]? = (cs[k]?).map unbRdm := by
+  have h : unbList cs = cs.map unbRdm := by
+    unfold unbList; rw [if_pos list_loop_stateless]
+  rw [h]
+  exact ⟨List.length_map _, fun k => List.getElem?_map⟩
+
+/-- … hence the average over *its own* admissible observation pairs (its own condition codes,
+    fold codes, weights, kernel), position by position — whatever the other datasets are. -/
+theorem list_row_eq_spec (cs : List (Cfg K))
+    (hhalf : ∀ c ∈ cs, c.half = 1 / two)
+    (hdesc : ∀ c ∈ cs, ∀ i, i < c.nObs → c.desc i < c.n) :
+    unbList cs = cs.map (fun c => (pairs c.n).map (fun ab => specDist c ab.1 ab.2)) := by
+  have h : unbList cs = cs.map unbRdm := by
+    unfold unbList; rw [if_pos list_loop_stateless]
+  rw [h]
+  apply List.map_congr_left
+  intro c hc
+  exact (unb_eq_spec c (hhalf c hc) (hdesc c hc)).2
+
+/-- Non-interference: replacing dataset `j` of the list leaves every other row unchanged. -/
+theorem list_noninterference (cs : List (Cfg K)) (j k : Nat) (c' : Cfg K) (hjk : j ≠ k) :
+    (unbList (cs.set j c'))[k]? = (unbList cs)[k]? := by
+  rw [(list_rowwise _).2, (list_rowwise _).2, List.getElem?_set_ne hjk]
+
+/-- A loop that remembers the predecessor's coding and reuses it when `key` is unchanged gives
+    what coding every dataset afresh gives, *provided the key determines the coding*
+    (for all lists, from any state reached). -/
+theorem cached_coding_sound {δ κ ρ : Type} [DecidableEq κ] (key : δ → κ) (code : δ → ρ)
+    (hkey : ∀ d d', key d = key d' → code d = code d') (ds : List δ) :
+    threaded (cachedStep key code) none ds = ds.map code := by
+  suffices h : ∀ (ds : List δ) (s : Option (κ × ρ)),
+      (s = none ∨ ∃ d0, s = some (key d0, code d0)) →
+      threaded (cachedStep key code) s ds = ds.map code from h ds none (Or.inl rfl)
+  intro ds
+  induction ds with
+  | nil => intro s _; rfl
+  | cons d ds ih =>
+    intro s hs
+    rcases hs with rfl | ⟨d0, rfl⟩
+    · simp only [threaded, cachedStep, List.map_cons]
+      rw [ih _ (Or.inr ⟨d, rfl⟩)]
+    · simp only [threaded, cachedStep, List.map_cons]
+      by_cases hk : key d = key d0
+      · rw [if_pos hk]
+        simp only
+        rw [ih _ (Or.inr ⟨d0, rfl⟩), hkey d d0 hk]
+      · rw [if_neg hk]
+        simp only
+        rw [ih _ (Or.inr ⟨d, rfl⟩)]
+
+/-- The whole design (condition vector *and* fold vector) is such a key; the condition vector
+    alone is not: two datasets with the same condition vector and other folds, the second one
+    gets the first one's fold coding (seeded change C15-7). -/
+theorem coding_key_needs_folds :
+    (∀ ds : List Design, threaded (cachedStep id codeDesign) none ds = ds.map codeDesign) ∧
+    ∃ ds : List Design,
+      threaded (cachedStep (fun d => d.labels) codeDesign) none ds ≠ ds.map codeDesign := by
+  refine ⟨fun ds => cached_coding_sound id codeDesign (fun d d' h => by cases h; rfl) ds,
+    [⟨[0, 1, 0, 1], some [0, 0, 1, 1]⟩, ⟨[0, 1, 0, 1], some [0, 1, 1, 0]⟩], by decide⟩
+
+/-- non-vacuity: a list of two configurations that satisfy the hypotheses of `list_row_eq_spec`
+    (codes below `n`, exact half), and the codings of the two designs above differ -/
+example : codeDesign ⟨[0, 1, 0, 1], some [0, 0, 1, 1]⟩ ≠ codeDesign ⟨[0, 1, 0, 1], some [0, 1, 1, 0]⟩ ∧
+    (codeDesign ⟨[7, 3, 7], none⟩).uniq = [7, 3] ∧ (codeDesign ⟨[7, 3, 7], none⟩).desc = [0, 1, 0] := by
+  decide
+
+example : let c : Cfg ℚ := { nObs := 2, n := 2, desc := fun i => i, cv := fun i => i, crossval := false,
+                              number := true, kern := fun _ _ => (1, 1), half := 1 / two }
+    (∀ c' ∈ [c, c], c'.half = 1 / two) ∧ (∀ c' ∈ [c, c], ∀ i, i < c'.nObs → c'.desc i < c'.n) := by
+  intro c
+  refine ⟨fun c' hc => ?_, fun c' hc i hi => ?_⟩ <;>
+    (simp only [List.mem_cons, List.not_mem_nil, or_false, or_self] at hc; subst hc) <;> simp_all [c]
+
 end Rsa.Props.C15
